@@ -118,6 +118,25 @@ class Check:
         for i in failing:
             k = next((k for k in known if k["rule"] == i.rule and k["instance"] == i.key), None)
             (known_hits if k else violations).append((i, k))
+        # A failing shape rule (or an extractor that could not read a restructured function) says "this is not the text I
+        # know", not "this is wrong".  Before reporting, try to prove the tree equal to the reference tree function by
+        # function (E8, vgraph.py); if every function is proven equal the reference verdict is carried over.
+        self.carried = None
+        if (violations or self.errors) and not self.only and not os.environ.get("BVSTATIC_NO_E8"):
+            try:
+                from . import equiv
+                eq = equiv.compare(self.repo)
+            except Exception as e:      # the prover failing must never hide a report
+                eq = {"equivalent": False, "unproven": [f"E8 failed: {type(e).__name__}: {e}"], "functions": 0}
+            if eq["equivalent"]:
+                self.carried = {"dismissed": [f"{i.rule} {i.key}" for i, _ in violations], "errors_dismissed": list(self.errors),
+                                "functions_compared": eq["functions"]}
+                for i, _ in violations:
+                    i.ok = True
+                    i.what = "shape not recognised, but the function is proven equal to the reference (E8): " + i.what
+                violations, self.errors = [], []
+            else:
+                self.extra["e8_unproven"] = eq["unproven"][:12]
         per_rule = {}
         for i in self.instances:
             r = per_rule.setdefault(i.rule, {"instances": 0, "failing": 0})
@@ -130,6 +149,15 @@ class Check:
             print(f"  rule {rid:<8} instances={r['instances']:<4} failing={r['failing']:<3} {self.rules.get(rid, '')}")
         for n in self.notes:
             print(f"  note: {n}")
+        if self.carried:
+            print(f"  note: {len(self.carried['dismissed'])} instance(s) / {len(self.carried['errors_dismissed'])} extractor(s) did not recognise the shape of the code, "
+                  f"but all {self.carried['functions_compared']} functions of the tree are proven equal to the reference tree (E8 value graphs): "
+                  "the reference verdict is carried over")
+            # known findings of the reference tree still hold on an equal tree
+            hit = {(i.rule, i.key) for i, _ in known_hits}
+            for k in known:
+                if (k["rule"], k["instance"]) not in hit:
+                    print(f"KNOWN-FINDING: property={self.prop} rule={k['rule']} {k['instance']} — {k.get('what_fails', '')} [carried over]")
         for i, k in known_hits:
             print(f"KNOWN-FINDING: property={self.prop} rule={i.rule} {i.key} — {k.get('what_fails', i.what)} [{i.where}]")
         replay_dir = EVIDENCE_DIR / "replay"
@@ -174,6 +202,8 @@ class Check:
             "exhaustive": True,
             "known_findings_reported": [f"{i.rule} {i.key}" for i, _ in known_hits],
         }
+        if getattr(self, "carried", None):
+            cov["carried_over_by_equivalence"] = self.carried
         if obls:
             cov["obligations"] = len(obls)
             cov["discharged"] = sum(1 for i in obls if i.ok)
